@@ -24,6 +24,9 @@ type Engine struct {
 	nextID   int
 	MaxPaths int
 	MaxDepth int
+	// ObjSize: the exact number of bytes a successful nested Encode/Decode of this OBJ event writes/reads, when the
+	// nested type's wire layout has a fixed size (set by the analysis; nil: unknown)
+	ObjSize func(ev *Event) (int64, bool)
 	// IsCodecMethod reports whether fn is an Encode/Decode method that must be
 	// kept as an OBJ atom instead of being inlined.
 	IsCodecMethod func(fn *ssa.Function) bool
@@ -438,7 +441,7 @@ func (e *Engine) load(st *state, addr *Val, t types.Type) *Val {
 			return anc
 		}
 		// an array of numbers some of whose elements were stored: the elements as they are now (not the zero value)
-		if av, isArr := t.Underlying().(*types.Array); isArr && av.Len() > 0 && av.Len() <= 4096 {
+		if av, isArr := t.Underlying().(*types.Array); isArr && av.Len() > 0 && av.Len() <= 4096 && isNumberElem(av.Elem()) {
 			if _, staged := st.content[addr.Key()]; !staged {
 				touched, exact := false, true
 				for _, me := range st.mem {
@@ -471,6 +474,11 @@ func (e *Engine) load(st *state, addr *Val, t types.Type) *Val {
 		return zeroVal(t)
 	}
 	return &Val{Op: "init", Args: []*Val{addr}, Type: t}
+}
+
+func isNumberElem(t types.Type) bool {
+	b, ok := t.Underlying().(*types.Basic)
+	return ok && b.Info()&types.IsNumeric != 0
 }
 
 func (e *Engine) storedAncestor(st *state, addr *Val) *Val {
@@ -813,7 +821,7 @@ func (e *Engine) execFrom(st *state, fr *frame, b *ssa.BasicBlock, prev *ssa.Bas
 				t, known := e.evalCond(st, c)
 				if known {
 					if !c.IsConst() {
-						st.conds = append(st.conds, Cond{V: c, Taken: t, Pos: in.Pos(), Fn: fr.fn})
+						st.conds = append(st.conds, Cond{V: c, Taken: t, Pos: in.Pos(), Fn: fr.fn, At: in})
 					}
 					if t {
 						return e.execFrom(st, fr, b.Succs[0], b, 0)
@@ -832,6 +840,8 @@ func (e *Engine) execFrom(st *state, fr *frame, b *ssa.BasicBlock, prev *ssa.Bas
 				st2, fr2 := st.clone(), fr.clone()
 				e.assume(st, c, true, in.Pos(), fr.fn)
 				e.assume(st2, c, false, in.Pos(), fr.fn)
+				st.conds[len(st.conds)-1].At = in
+				st2.conds[len(st2.conds)-1].At = in
 				o1 := e.execFrom(st, fr, b.Succs[0], b, 0)
 				o2 := e.execFrom(st2, fr2, b.Succs[1], b, 0)
 				return append(o1, o2...)
@@ -991,6 +1001,20 @@ func (e *Engine) unrollable(fr *frame, h *ssa.BasicBlock, body map[*ssa.BasicBlo
 							}
 						}
 					}
+					// … or the arguments of a variadic helper inlined here (`writeNumbers(buf, r.Side, r.Price, …)` with
+					// `values ...any`): the slice is a short array written out at the call site
+					if par, isParam := ia.X.(*ssa.Parameter); isParam {
+						switch el.Underlying().(type) {
+						case *types.Interface, *types.Struct, *types.Pointer, *types.Signature:
+							if v := stripCT(e.val(fr, par)); v != nil && v.Op == "slice" && len(v.Args) >= 3 && v.Args[1] == nil && stripCT(v.Args[0]).Op == "alloc" {
+								if pt, isP := stripCT(v.Args[0]).Type.(*types.Pointer); isP {
+									if arr, isArr := pt.Elem().Underlying().(*types.Array); isArr && arr.Len() <= 16 {
+										return true
+									}
+								}
+							}
+						}
+					}
 				}
 			}
 		}
@@ -1046,8 +1070,47 @@ func (e *Engine) evalCond(st *state, c *Val) (bool, bool) {
 			return !t, true
 		}
 	}
-	if t, ok := lenDiffCond(st, c); ok {
+	if t, ok := lenDiffCond(e, st, c); ok {
 		return t, true
+	}
+	// min(a, b, …) is no larger than any of its arguments – nor than something equal to one of them (a second Len()
+	// observation with nothing written or read in between)
+	if c.Op == "binop" && len(c.Args) == 2 {
+		isMin := func(v *Val) *Val {
+			v = stripCT(v)
+			if v != nil && v.Op == "call" && v.Name == "min" && len(v.Args) >= 2 {
+				return v
+			}
+			return nil
+		}
+		leq := func(m, y *Val) bool { // every value of m is <= y
+			for _, a := range m.Args {
+				if affOf(a).Equal(affOf(y)) {
+					return true
+				}
+				eq := &Val{Op: "binop", Name: "==", Args: []*Val{a, y}, Type: types.Typ[types.Bool]}
+				if t, ok := lenDiffCond(e, st, eq); ok && t {
+					return true
+				}
+			}
+			return false
+		}
+		if m := isMin(c.Args[0]); m != nil && leq(m, c.Args[1]) {
+			switch c.Name {
+			case ">":
+				return false, true
+			case "<=":
+				return true, true
+			}
+		}
+		if m := isMin(c.Args[1]); m != nil && leq(m, c.Args[0]) {
+			switch c.Name {
+			case "<":
+				return false, true
+			case ">=":
+				return true, true
+			}
+		}
 	}
 	return false, false
 }
@@ -1055,7 +1118,7 @@ func (e *Engine) evalCond(st *state, c *Val) (bool, bool) {
 // lenDiffCond decides a comparison that involves the difference of two Len() observations of one buffer when
 // everything between them on this path appended a known number of bytes (`if buf.Len()-before != 16 { internal error }`
 // after writing a 16-byte field): the difference is that number.
-func lenDiffCond(st *state, c *Val) (bool, bool) {
+func lenDiffCond(e *Engine, st *state, c *Val) (bool, bool) {
 	if c.Op != "binop" || len(c.Args) != 2 {
 		return false, false
 	}
@@ -1147,6 +1210,38 @@ func lenDiffCond(st *state, c *Val) (bool, bool) {
 				}
 				if first != nil {
 					w = w.Add(first, 1)
+				}
+			case EvObj:
+				// a nested part of a type whose wire size is fixed: a successful Encode appended, a successful Decode
+				// took, exactly that many bytes
+				if ev.Failed || ev.Buf == nil || stripIface(ev.Buf).Key() != stripIface(pos.Args[0]).Key() || e == nil || e.ObjSize == nil {
+					return nil, false
+				}
+				n, okN := e.ObjSize(ev)
+				if !okN {
+					return nil, false
+				}
+				if ev.Dir == "Encode" {
+					w = w.Add(affConst(n), 1)
+				} else if ev.Dir == "Decode" {
+					w = w.Add(affConst(n), -1)
+				} else {
+					return nil, false
+				}
+			case EvRep:
+				// a loop that does not touch the buffer (the pad strip over bytes already read, a fill of a local array)
+				touches := false
+				walkEvents(ev.Iter0Events(), func(x *Event, _ int) {
+					switch x.Kind {
+					case EvObj, EvCall, EvCalc, EvBufOther:
+						touches = true
+					}
+					if x.Buf != nil && stripIface(x.Buf) != nil && stripIface(x.Buf).Key() == stripIface(pos.Args[0]).Key() && x.Kind != EvLen && x.Kind != EvBytes {
+						touches = true
+					}
+				})
+				if touches {
+					return nil, false
 				}
 			default:
 				return nil, false
@@ -2613,6 +2708,24 @@ func (e *Engine) convert(st *state, x *Val, from, to types.Type) *Val {
 	// conversions from slices/strings take the content (they copy)
 	if isStringOrBytes(to) && from != nil && isStringOrBytes(from) {
 		x = e.contentOf(st, x)
+		// string([]byte{c1, c2, …}) of constants is that string
+		if lit := stripCT(x); lit != nil && lit.Op == "arraylit" && len(lit.Args) > 0 && len(lit.Args) <= 16 {
+			if tb, isB := to.Underlying().(*types.Basic); isB && tb.Info()&types.IsString != 0 {
+				bs := make([]byte, 0, len(lit.Args))
+				okAll := true
+				for _, a := range lit.Args {
+					n, isC := stripCT(a).Int64()
+					if !isC || n < 0 || n > 255 {
+						okAll = false
+						break
+					}
+					bs = append(bs, byte(n))
+				}
+				if okAll {
+					return mkConst(constant.MakeString(string(bs)), to)
+				}
+			}
+		}
 	}
 	return &Val{Op: "conv", Name: "convert", Args: []*Val{x}, Type: to}
 }
